@@ -156,6 +156,19 @@ PROPS["C08"] = {
     "level_note": "Trusted: model.EncodedSize / ValidateValue (written from the documented row format), exact Go-value comparison. Multi-row failing statements are C14's business and not generated here.",
 }
 
+PROPS["C14"] = {
+    "kind": "harness", "test": "TestC14", "level": "exploration",
+    "tiers": tiers(300, 4, 3000, 16),
+    "rule": "rapid-generated cases: a database state built by a valid history of 2-14 statements (generated flushes, so changes may be unflushed), then ONE failing statement: INSERT/UPDATE/DELETE on an unknown table, duplicate CREATE TABLE, "
+            "and INSERT with column-count mismatch / type mismatch / INT out of range / oversize row where the offending row sits at every index k of n rows, UPDATE with a bad value, UPDATE that becomes oversize only at the k-th matching row. "
+            "Oracle: an error is returned and every table, row id and the catalog equal the model of the history, immediately, after crash + recovery of the files as they are, and after (optional tick +) clean restart; then a valid insert per table must work. "
+            "A deviation that is exactly 'the row operations before the offending one stayed applied' is classified as the listed finding C14-multirow-partial-apply (counted, not raised); anything else is a violation. "
+            "Non-trivial: multi-row statement with the offending row not first, or unflushed changes present before the failing statement; distinct by case JSON.",
+    "technique": "property-based testing (rapid) of failing statements against a reference model, observed at three points (memory, crash recovery, restart)",
+    "level_text": "Random search over states and failing statements with the offending row at every position. Search, not proof.",
+    "level_note": "Trusted: model validity classification (model.Apply) and prefix semantics. The listed finding is recognised by its exact after-state; a different residue is reported.",
+}
+
 HOOK_COMMITS = ["7ca683e"]
 
 NOT_APPLICABLE = {}
